@@ -194,3 +194,26 @@ pub fn unwrap_model<T, E: core::fmt::Debug>(r: Result<T, E>) -> T {
     match r { Ok(t) => t, Err(_) => panic!("Result::unwrap on Err") }
 }
 
+
+
+/// Native-replay support for verifier harnesses.  Under Kani the `root` is a free symbolic value
+/// and the hash is the TOY stand-in; a counterexample's root is therefore meaningless for real
+/// SHA-256.  In a native replay (cfg(verif_playback)) the harness re-checks the obligation for every
+/// *candidate* root that some fold of the solver's proof elements can produce with the real hash
+/// (all prefixes, all left/right orientations, `node` = the real node hash), so that an
+/// implementation that accepts a tuple it must reject is caught with a concrete SHA-256 witness.
+#[cfg(verif_playback)]
+pub fn candidate_roots(start: &B32, proof: &[B32], node: fn(&B32, &B32) -> B32) -> Vec<B32> {
+    let mut out = vec![*start];
+    let n = core::cmp::min(proof.len(), 6);
+    for k in 1..=n {
+        for mask in 0u32..(1 << k) {
+            let mut cur = *start;
+            for i in 0..k {
+                cur = if (mask >> i) & 1 == 0 { node(&cur, &proof[i]) } else { node(&proof[i], &cur) };
+            }
+            out.push(cur);
+        }
+    }
+    out
+}
